@@ -1259,10 +1259,20 @@ func slice(x, lo, hi, step_ Value) (Value, error) {
 	n := sliceable.Len()
 	step := 1
 	if step_ != None {
-		var err error
-		step, err = AsInt32(step_)
-		if err != nil {
-			return nil, fmt.Errorf("invalid slice step: %s", err)
+		i, ok := step_.(Int)
+		if !ok {
+			return nil, fmt.Errorf("invalid slice step: got %s, want int", step_.Type())
+		}
+		if iSmall, iBig := i.get(); iBig == nil {
+			step = int(iSmall)
+		} else {
+			// A stride too large for the small representation
+			// selects at most the first element, like any stride
+			// of at least n.
+			step = max(n, 1)
+			if iBig.Sign() < 0 {
+				step = -step
+			}
 		}
 		if step == 0 {
 			return nil, fmt.Errorf("zero is not a valid slice step")
@@ -1351,15 +1361,24 @@ func indices(start_, end_ Value, len int) (start, end int, err error) {
 
 // asIndex sets *result to the integer value of v, adding len to it
 // if it is negative.  If v is nil or None, *result is unchanged.
+// An integer too large for the small representation lies far outside
+// the sequence: it yields len if positive and -1 if negative, which
+// every caller then truncates like any other out-of-range index.
 func asIndex(v Value, len int, result *int) error {
 	if v != nil && v != None {
-		var err error
-		*result, err = AsInt32(v)
-		if err != nil {
-			return err
+		i, ok := v.(Int)
+		if !ok {
+			return fmt.Errorf("got %s, want int", v.Type())
 		}
-		if *result < 0 {
-			*result += len
+		if iSmall, iBig := i.get(); iBig == nil {
+			*result = int(iSmall)
+			if *result < 0 {
+				*result += len
+			}
+		} else if iBig.Sign() < 0 {
+			*result = -1
+		} else {
+			*result = len
 		}
 	}
 	return nil
